@@ -22,6 +22,7 @@ import (
 	"strings"
 
 	"verif/engine"
+	"verif/simclock"
 	"verif/simfs"
 )
 
@@ -77,6 +78,7 @@ func (h History) reseed(s *Step, phase string) {
 	}
 	f.Write([]byte(phase))
 	runtime.VerifSetMapRand(f.Sum64() ^ h.MapSalt)
+	simclock.Install(f.Sum64() ^ h.MapSalt) // simulated time restarts with it (uninstalled when the history ends)
 }
 
 // Model is a reference model of one property's store.
@@ -172,6 +174,8 @@ func countMutating(st Store, s Step, path, aux, scratch string) int {
 // Run executes a history. It stops at the first violation.
 func Run(st Store, h History) (*Violation, Stats, error) {
 	stats := Stats{FaultsFired: map[string]int{}}
+	h.reseed(nil, "setup") // the starting document may be written by pdfcpu itself (prebuilt trees)
+	defer simclock.Uninstall()
 	root, err := os.MkdirTemp(engine.ScratchBase(), "ds-")
 	if err != nil {
 		return nil, stats, err
